@@ -11,7 +11,7 @@ Require Import Zrs.proofs.C13_Huffman.
 Require Import Zrs.model.BitIO Zrs.model.BitStream Zrs.model.HufDec Zrs.proofs.C12_Stream Zrs.proofs.C13_Stream.
 Require Import Zrs.gen.Generated Zrs.model.Headers Zrs.model.BlockDec Zrs.model.LitEnc Zrs.proofs.C13_LitSection.
 Require Import Zrs.proofs.C03_HufTable Zrs.proofs.C13_Canonical Zrs.proofs.C13_CanonCode Zrs.proofs.C13_LitAll Zrs.proofs.C13_Direct.
-Require Import Zrs.model.SeqEnc Zrs.model.FseEnc Zrs.model.WeightEnc Zrs.proofs.C12_SeqStream Zrs.proofs.C12_Desc Zrs.proofs.C13_WeightStream Zrs.proofs.C13_WeightDesc Zrs.proofs.C13_WeightTable.
+Require Import Zrs.model.SeqEnc Zrs.model.FseEnc Zrs.model.WeightEnc Zrs.proofs.C12_SeqStream Zrs.proofs.C12_Desc Zrs.proofs.C13_WeightStream Zrs.proofs.C13_WeightDesc Zrs.proofs.C12_AvoidBits Zrs.proofs.C13_WeightTable Zrs.proofs.C13_WeightFinal.
 Open Scope Z_scope.
 
 Theorem C13_shape_valid : forall n, 2 <= n <= 256 ->
@@ -208,6 +208,23 @@ Theorem C13_fse_compressed_weight_description_roundtrip_table : forall t al prob
   read_weights t (header :: d ++ stream ++ rest) = ROk (data, D, 1 + header).
 Proof. exact fse_weight_description_roundtrip'. Qed.
 
+(** ... and unconditionally on the table: for EVERY normalised distribution (accuracy log 5 or 6, what the weight
+    description may use) in which no probability exceeds half the table size -- what the "avoid zero bits" option of the
+    table builder establishes -- the description round-trips: the decoder builds the table and reads back exactly the
+    weights, whatever 2..257 weights over symbols of non-zero probability were written *)
+Theorem C13_fse_weight_description_for_every_half_bounded_distribution : forall t al probs d data rest,
+  t_max_symbol (ht_fse t) = 255 -> 5 <= al <= 6 ->
+  Forall (fun p => -1 <= p <= 2 ^ (al - 1)) probs -> weight probs = 2 ^ al -> last probs 1 <> 0 -> (length probs <= 256)%nat ->
+  desc_bytes al probs = Some d ->
+  (2 <= length data <= 257)%nat ->
+  Forall (fun x => exists i, x = Z.of_nat i /\ (i < length probs)%nat /\ nth i probs 0 <> 0) data ->
+  exists D, fse_build_from_probabilities (ht_fse t) al probs = ROk D /\
+    let stream := stream_bytes (weight_fields (enc_of_dec D) data) in
+    let header := zlen d + zlen stream in
+    (header < 128 -> read_weights t (header :: d ++ stream ++ rest) = ROk (data, D, 1 + header)).
+Proof. exact fse_weight_description_for_every_half_bounded_distribution. Qed.
+
+Print Assumptions C13_fse_weight_description_for_every_half_bounded_distribution.
 Print Assumptions C13_fse_compressed_weight_description_roundtrip_table.
 Print Assumptions C13_two_state_weight_stream_roundtrip.
 Print Assumptions C13_fse_compressed_weight_description_roundtrip.
